@@ -883,3 +883,40 @@ def s_r9_own_descriptor(schema: Schema, rep: Report):
     rep.unit("classes_checked_for_shared_descriptors", n)
     if not any(o.rule == "S-R9" and not o.ok for o in rep.obligations):
         rep.check("S-R9", "one-descriptor-per-child", True, f"{n} classes", "")
+
+
+def s_r10_per_class_tables(schema: Schema, rep: Report):
+    """a table derived from a class body and remembered on the class must be remembered per class"""
+    rep.rule("S-R10", "no class-level table of Aggregate (spec, elements, subaggregates, listaggregates, ... and their helpers) is remembered by assigning an attribute of `cls` and read back by ordinary attribute lookup: `cls._x` / getattr / hasattr follow the MRO, so a subclass whose base was introspected first is answered with the BASE's table - its own children are then unknown to the reader, the writer and flat attribute access (a per-class memo reads cls.__dict__ / vars(cls), or is keyed by the class)")
+    ci = schema.aggregate
+    n = 0
+    stores = {}
+    fns = [x for x in ci.node.body if isinstance(x, ast.FunctionDef)]
+    for fn in fns:
+        if not fn.args.args:
+            continue
+        recv = fn.args.args[0].arg
+        is_cls = recv == "cls" or any("classmethod" in ast.unparse(d) or "classproperty" in ast.unparse(d) for d in fn.decorator_list)
+        if not is_cls:
+            continue
+        for x in ast.walk(fn):
+            if isinstance(x, ast.Attribute) and isinstance(x.ctx, ast.Store) and isinstance(x.value, ast.Name) and x.value.id == recv:
+                stores.setdefault(x.attr, []).append((fn, x))
+            elif isinstance(x, ast.Call) and isinstance(x.func, ast.Name) and x.func.id == "setattr" and len(x.args) == 3 and isinstance(x.args[0], ast.Name) and x.args[0].id == recv and isinstance(x.args[1], ast.Constant):
+                stores.setdefault(str(x.args[1].value), []).append((fn, x))
+    for attr, sts in sorted(stores.items()):
+        n += 1
+        bad = None
+        for fn in fns:
+            if not fn.args.args:
+                continue
+            recv = fn.args.args[0].arg
+            for x in ast.walk(fn):
+                if isinstance(x, ast.Attribute) and isinstance(x.ctx, ast.Load) and x.attr == attr and isinstance(x.value, ast.Name) and x.value.id in (recv, "cls", "self"):
+                    bad = bad or (fn, x, ast.unparse(x))
+                elif isinstance(x, ast.Call) and isinstance(x.func, ast.Name) and x.func.id in ("getattr", "hasattr") and len(x.args) >= 2 and isinstance(x.args[1], ast.Constant) and x.args[1].value == attr and isinstance(x.args[0], ast.Name):
+                    bad = bad or (fn, x, ast.unparse(x))
+        fn0, st0 = sts[0]
+        rep.check("S-R10", f"Aggregate.{fn0.name}:cls.{attr}", bad is None, f"{fn0.name}() stores cls.{attr} and {bad[0].name}() reads it back as {bad[2][:40]}: the lookup finds the value a BASE class stored, so a subclass used after its base gets the base's table (children the subclass adds are skipped as unknown, not written, not reachable by flat access)" if bad else "stored per class and not read through inheritance", f"{ci.mod.relpath}:{st0.lineno}")
+    if n == 0:
+        rep.check("S-R10", "Aggregate:no-class-level-memo", True, "no classmethod of Aggregate assigns an attribute of the class", "")
